@@ -3,6 +3,7 @@ package main
 import (
 	"encoding/binary"
 	"strconv"
+	"strings"
 
 	"verifharness/lib"
 )
@@ -226,5 +227,87 @@ func genC02(rec *lib.Rec, r *lib.Rng, thorough bool) {
 				strconv.Itoa(r.Pick(10, 100, 1000))+" "+segsStr(segs), true)
 			rec.Count("concurrent")
 		}
+	}
+}
+
+// renderVal is the expected canonical tree of a generated value (the harness-side shadow).
+func renderVal(sb *strings.Builder, v *Val) {
+	if v == nil || v.Kind == vNull {
+		sb.WriteString("N")
+		return
+	}
+	switch v.Kind {
+	case vCap:
+		sb.WriteString("C" + strconv.FormatUint(uint64(v.Cap), 10))
+	case vStruct:
+		renderStructVal(sb, v.Data, v.Ptrs)
+	case vList:
+		sb.WriteString("L" + strconv.Itoa(v.EK) + "," + strconv.Itoa(v.N) + "[")
+		switch v.EK {
+		case 7:
+			for _, e := range v.Elems {
+				renderStructVal(sb, e.Data, e.Ptrs)
+			}
+		case 6:
+			for _, e := range v.Elems {
+				renderVal(sb, e)
+			}
+		case 1:
+			for i := 0; i < v.N; i++ {
+				sb.WriteString(b01(v.Prim[i/8]>>(uint(i)%8)&1 == 1))
+			}
+		case 0:
+		default:
+			for _, b := range v.Prim {
+				sb.WriteByte(hexdigits[b>>4])
+				sb.WriteByte(hexdigits[b&15])
+			}
+		}
+		sb.WriteString("]")
+	}
+}
+
+func renderStructVal(sb *strings.Builder, data []byte, ptrs []*Val) {
+	sb.WriteString("S{")
+	for _, b := range data {
+		sb.WriteByte(hexdigits[b>>4])
+		sb.WriteByte(hexdigits[b&15])
+	}
+	sb.WriteString("|")
+	for _, p := range ptrs {
+		renderVal(sb, p)
+	}
+	sb.WriteString("}")
+}
+
+func genC03(rec *lib.Rec, r *lib.Rng, thorough bool) {
+	genTranslatorStream(rec, r, map[bool]int{false: 200, true: 5000}[thorough], nil)
+	n := 3000
+	if thorough {
+		n = 150000
+	}
+	n /= Shards
+	bad := 0
+	for i := 0; i < n; i++ {
+		b := 4 + r.Intn(40)
+		nseg := 1 + r.Intn(4)
+		v := GenVal(r, 6, &b)
+		segs := Encode(r, v, nseg, r.Intn(8), r.Intn(8), r.Bool())
+		line := "read tree " + segsStr(segs)
+		// S: the accessors' tree vs the spec decoder's tree
+		got := rec.Op("S", line, len(line) > 60)
+		// harness-side shadow: what was encoded is what is read (zero-sized structs read back as empty structs)
+		var sb strings.Builder
+		renderVal(&sb, v)
+		if got != sb.String() {
+			bad++
+			rec.Op("S", "read shadow "+sb.String()+" "+segsStr(segs), true)
+		}
+		if i%3 == 0 { // invalid encodings: both sides must agree on rejection too
+			mutate(r, segs)
+			rec.Op("S", "read tree "+segsStr(segs), true)
+			rec.Count("mutated")
+		}
+		rec.Count("valid")
 	}
 }
